@@ -120,6 +120,21 @@ NOTES = {
     "C17-m12": "the delivered patch no longer applied after repair D39v1; re-made by hand on the current tree. Caught",
     "C17-m13": "missed by the first version of the check; caught after the C17 cli leg writes the diff and the patched document with -o over an existing longer file",
     "C18-m13": "missed by the first version of the check; caught after integer-looking key twins (1 next to 01, +1, 1e0; 0 next to -0, 00; also negative) were added to C18",
+    "C02-m15": "missed by the first version of the check; caught after the synthetic leg builds list hunks with context below a keyed member (mixed path kinds)",
+    "C03-m16": "missed by the first version of the check (a panic of Patch counted as 'rejected'); caught after a panic is reported ('Patch returns an error') and targets get an array on the path of a hunk cut to exactly the index the path goes through",
+    "C04-m15": "missed by the first version of the check; caught after setkeys:id,k was added to the C04 option sets",
+    "C06-m15": "NOT counted for C06: needs Precision(eps > 0) and numbers that differ within eps, where C06 has no oracle (it runs under Precision only on whole-number documents); the effect is a diff that does not apply, which the precision round-trip leg of C14 reports (quick, 2 violations)",
+    "C06-m16": "NOT counted for C06: the Diff value is untouched, only DiffElement.Render writes the empty string as a boundary marker; C02 reports it (quick, 12 violations)",
+    "C07-m15": "NOT counted for C07: a same-position container pair is replaced instead of entered, which restates equal members but is not a no-op or redundant hunk at the granularity C07 can state (the unchanged tree replaces containers wholesale whenever they are not aligned); it is C06's recursion clause and C06 reports it (quick, 2 violations)",
+    "C07-m16": "missed by the first version of the check (no Precision(0), which both binaries always pass); caught after prec:0 was added to the option sets of C07 and C01; C14 catches it too",
+    "C09-m15": "missed by the first version of the check; caught after gen.PathTwins also plants lists that change in the middle (hunks with context) under the nested and the flat key, and genListPairNasty draws path twins",
+    "C12-m16": "missed by the first version of the check; caught after a quarter of the C12 cli runs write to -o over an existing longer file and the patch {} on object targets got more weight",
+    "C14-m16": "missed by the first version of the check; caught after the option set setkeys:'a b' (a key name with a blank inside) was added to C14",
+    "C15-m16": "missed by the first version of the check; caught after key triples with digits inside (a01, a0a, a1e, v01, v10, v1a ...) were added to the number-like key pool",
+    "C16-m15": "missed by the first version of the check; caught after a third of the translation runs of the C16 cli leg also pass -yaml",
+    "C17-m15": "missed by the first version of the check; caught after mset+setkeys:id was added to the v1 option sets",
+    "C18-m15": "missed by the first version of the check; caught after path twins (also with '/' as the separator and lists as values) were added to C18",
+    "C18-m16": "missed by the first version of the check; caught after objects holding 2^63, 2^63-1, 1e19, -2^63 as old / new values were added to C18 (and 2^63, 1e19, 2^64-2048 to the float pool)",
     "C14-m2": "missed by the first version of the check (stdin was always a pipe); caught after a run with stdin redirected from a regular file was added",
 }
 
